@@ -16,9 +16,10 @@ HERE = os.path.dirname(os.path.abspath(__file__))
 VERIF = os.environ.get("VERIF_DIR", os.path.dirname(HERE))
 PREEMPTION = "0.05"
 # (cases, seeds per case) per tier; the case number selects limit / mode / thread count / senders
+# C20 cases 36.. are the crowd cases (hundreds of refusals per interleaving: fewer seeds)
 PLAN = {
-    "quick": {"C18": (list(range(8)), 24), "C19": ([1, 3, 5, 7, 9, 11, 13, 19], 24), "C20": ([0, 1, 2, 4, 8, 10, 14, 22, 27], 24)},
-    "thorough": {"C18": (list(range(8)), 512), "C19": (list(range(24)), 256), "C20": (list(range(36)), 256)},
+    "quick": {"C18": [(list(range(8)), 24)], "C19": [([1, 3, 5, 7, 9, 11, 13, 19], 24)], "C20": [([0, 1, 2, 4, 8, 10, 14, 22, 27], 24), ([36, 37], 8)]},
+    "thorough": {"C18": [(list(range(8)), 512)], "C19": [(list(range(24)), 256)], "C20": [(list(range(36)), 256), ([36, 37], 96)]},
 }
 
 
@@ -76,7 +77,9 @@ def write_replay(prop, case, seed, cls, key, msg):
 
 
 def check(prop, tier):
-    cases, n_seeds = PLAN[tier][prop]
+    groups = PLAN[tier][prop]
+    cases = [c for g in groups for c in g[0]]
+    seeds_of = {c: g[1] for g in groups for c in g[0]}
     known = known_findings()
     t0 = time.time()
     runs = 0
@@ -84,6 +87,7 @@ def check(prop, tier):
     violations = []
     harness = None
     for case in cases:
+        n_seeds = seeds_of[case]
         lo = 0
         while lo < n_seeds:
             held, fail, err = miri(prop, case, seeds=(lo, n_seeds))
@@ -112,7 +116,8 @@ def check(prop, tier):
         print(f"KNOWN-FINDING: property={prop} {text} [{cls} {key}; thread-interleaving engine, first at case {case} seed {seed}; seen in {n} interleavings]")
     for pth in violations:
         print(f"VIOLATION property={prop} replay={pth}")
-    print(f"threads-engine: interleavings={runs} cases={len(cases)} seeds_per_case={n_seeds} wall_s={wall:.1f} exit={1 if violations else (2 if harness else 0)}")
+    n_seeds = groups[0][1]
+    print(f"threads-engine: interleavings={runs} cases={len(cases)} seeds_per_case={'/'.join(str(g[1]) for g in groups)} wall_s={wall:.1f} exit={1 if violations else (2 if harness else 0)}")
     if harness:
         print("HARNESS ERROR: " + harness, file=sys.stderr)
     # merge into the evidence file the simulator has just written
